@@ -80,7 +80,7 @@ SEEDS.update({
  "C13c": dict(prop="C13", file="classifier/_wrapper.py (SklearnClassifier._fit)", needs="fit(A), fit(U) with all labels missing, then partial_fit(B): the estimator of the first fit is continued", caught_by=["C13"],
               first_version="MISSED: no data set without labels in the operation alphabet (D0 added)"),
  "C14c": dict(prop="C14", file="pool/_badge.py (query)", needs="the all-zero-distance fall-back active for a whole batch (one-hot predictions) and batch_size >= 3", caught_by=["C14", "C01"],
-              first_version="MISSED: the violation was swallowed by the known finding about Badge duplicates that existed then (same subject, same kind, same output predicate). That defect has since been repaired in /repo (fix: 8849f1cd), and with the finding gone C14 and C01 report the seed. Lesson recorded in DESIGN 3.7: a known finding hides every defect with the same signature, so findings are repaired whenever the repair is small"),
+              first_version="MISSED: the violation was swallowed by the known finding about Badge duplicates that existed then (same subject, same kind, same output predicate). That defect has since been repaired in /repo (fix: c3658105), and with the finding gone C14 and C01 report the seed. Lesson recorded in DESIGN 3.7: a known finding hides every defect with the same signature, so findings are repaired whenever the repair is small"),
  "C15c": dict(prop="C15", file="regressor/_nic_kernel_regressor.py (_combine_params)", needs="targets with a large common offset and a prior mean near that level (cancellation in the rewritten scatter term gives a negative variance)", caught_by=["C15"],
               first_version="MISSED: for improper priors the std clause was not judged at all and no proper prior sat near the offset; C15 now judges location / scale (and std where df > 2) for improper priors with >= 2 weighted labels and has a NIC subject whose prior mean is the offset"),
  "C16c": dict(prop="C16", file="utils/_label.py (labeled_indices / unlabeled_indices)", needs="a Fortran-ordered 2-D label array (e.g. np.array([annot_1, annot_2]).T) with a mixed pattern", caught_by=["C16"],
